@@ -1,6 +1,8 @@
 use anyhow::{anyhow, Context, Result};
 use regex::Regex;
-use renamify_core::{apply_plan, create_simple_plan, Plan, PlanOptions, Preview};
+use renamify_core::{
+    apply_plan, create_simple_plan, OutputFormatter, Plan, PlanOptions, Preview, RenameResult,
+};
 use std::io::{self, Write};
 use std::path::PathBuf;
 
@@ -123,28 +125,51 @@ pub fn handle_replace(
         }
     }
 
-    // Handle output formats
-    match output {
-        OutputFormat::Json => {
-            if !quiet {
-                let json = serde_json::to_string_pretty(&plan)?;
-                println!("{}", json);
-            }
+    // Machine-readable output: exactly one JSON document, whatever `--quiet` says.
+    // Without `-y` (nobody to ask in this mode) or with `--dry-run` it is a preview: the plan itself
+    // is the document and nothing is applied. With `-y` the plan is applied like in the summary
+    // format and the document is the same result wrapper that `rename` prints.
+    let json = output == OutputFormat::Json;
+    if json {
+        if dry_run {
+            println!("{}", serde_json::to_string_pretty(&plan)?);
             return Ok(());
-        },
-        _ => {},
+        }
+        if !yes {
+            println!("{}", serde_json::to_string_pretty(&plan)?);
+            return Ok(());
+        }
     }
+
+    let has_changes = !(plan.matches.is_empty() && plan.paths.is_empty());
+    let result = RenameResult {
+        plan_id: plan.id.clone(),
+        search: pattern.to_string(),
+        replace: replacement.to_string(),
+        files_changed: plan
+            .matches
+            .iter()
+            .map(|m| &m.file)
+            .collect::<std::collections::HashSet<_>>()
+            .len(),
+        replacements: plan.matches.len(),
+        renames: plan.paths.len(),
+        committed: commit && has_changes,
+        plan: Some(plan.clone()),
+    };
 
     // Check if there are any changes to apply
     if plan.matches.is_empty() && plan.paths.is_empty() {
-        if !quiet {
+        if json {
+            print!("{}", result.format_json());
+        } else if !quiet {
             println!("No matches found for pattern '{}'", pattern);
         }
         return Ok(());
     }
 
     // Show preview if not in quiet mode
-    if !quiet {
+    if !quiet && !json {
         let preview_format = preview.map(|p| p.into()).unwrap_or(Preview::Summary);
 
         let output = renamify_core::render_plan(&plan, preview_format, Some(use_color));
@@ -193,7 +218,9 @@ pub fn handle_replace(
         commit_changes(&plan)?;
     }
 
-    if !quiet {
+    if json {
+        print!("{}", result.format_json());
+    } else if !quiet {
         println!("✅ Applied successfully! Operation ID: {}", plan.id);
     }
 
